@@ -79,7 +79,7 @@ TRUSTED = [
     "the LIVE instance __dict__ keys reported per case (which keys survive; compared with the real __getstate__, "
     "pickle.loads(dumps), copy.copy and copy.deepcopy), the round trips through real pickle/copy are exercised by the "
     "correspondence",
-    "float rounding is not modelled; agreement at 1e-9*max(1,|v|)",
+    "float rounding is not modelled; agreement at 1e-9*max(1,|v|), or 1e-16 of the largest entry of the column (cancellation dust in products with large factors)",
     "missing values (NaN rows, extrapolation='na', null categories, na_action) are property C06 and outside this model; "
     "`lag` is excluded by the property",
     "the set `factors` of get_model_matrix is iterated in hash order; the model evaluates factors in formula order "
@@ -1980,9 +1980,15 @@ def _cmp_matrix(io, mo, what):
     for j, e in enumerate(mo["columns"]):
         if len(e["values"]) != io["shape"][0]:
             return f"{what}: column {e['name']} has {io['shape'][0]} rows vs model {len(e['values'])}"
+        # a cell that is an exact 0 in the model (cancellation inside a spline basis) times large factors comes out of
+        # float arithmetic as dust proportional to the COLUMN's magnitude: the tolerance is relative to the larger of
+        # the cell and 1e-7 of the column's largest entry (seen in a thorough run: -1.7e-9 vs 0 in a column of 4e13)
+        colmax = max([abs(fl(v)) for v in e["values"]] or [0.0])
         for i, v in enumerate(e["values"]):
             a = io["rows"][i][j]
-            if not (isinstance(a, float) and math.isfinite(a)) or not close(a, fl(v)):
+            if not (isinstance(a, float) and math.isfinite(a)) or not (
+                close(a, fl(v)) or abs(a - fl(v)) <= TOL * 1e-7 * colmax
+            ):
                 return f"{what}: [{i}, {e['name']}] = {a!r} vs model {fl(v)!r}"
     if io["shape"][1] != ncols:
         return f"{what}: {io['shape'][1]} columns vs model {ncols}"
